@@ -125,7 +125,7 @@ func applT(pkg string, n, appliedN int) string {
 
 var funcs = template.FuncMap{
 	"seq": seq, "list": list, "decl": decl, "curriedT": curriedT, "curriedLit": curriedLit,
-	"applied": applied, "idx": idx, "add": add, "hcons": hcons, "chainT": chainT, "applT": applT,
+	"applied": applied, "remArity": func(n, j int) int { return n - j + 1 }, "idx": idx, "add": add, "hcons": hcons, "chainT": chainT, "applT": applT,
 }
 
 func emit(name, tmpl string, data any) {
